@@ -172,9 +172,13 @@ def numAt (s : Txt) (j : Nat) : Option Txt :=
 def matchNumAt (s kw : Txt) (neg : Bool) (i : Nat) : Option Txt :=
   match head s kw i with
   | none => none
-  | some j0 => numAt s (if neg && j0 < s.size && s[j0]! == '-' then j0 + 1 else j0)
+  | some j0 =>
+    -- the optional sign is INSIDE the captured group (fix A30): the group is the sign followed by the numeral
+    let sg := if neg && j0 < s.size && s[j0]! == '-' then 1 else 0
+    (numAt s (j0 + sg)).map fun w => slice s j0 (j0 + sg) ++ w
 
-/-- `kw ?= ?-?([\d.]+(?:[eE][-+]?\d+)?)\s*$` (MULTILINE), `neg` = whether `-?` is in the pattern: the captured group -/
+/-- `kw ?= ?(-?[\d.]+(?:[eE][-+]?\d+)?)\s*$` (MULTILINE), `neg` = whether `-?` is in the pattern (it is, in the group, on
+every numeric row of `_parseNormalTextgrid` after fix A30): the captured group -/
 def matchNum (s kw : Txt) (neg : Bool) : Option Txt :=
   (findAll s kw).findSome? (matchNumAt s kw neg)
 
@@ -240,7 +244,7 @@ def headerField (hl : List Txt) (k : Nat) : Except Err Txt := do
 def readEntryLong (isI : Bool) (el : Txt) : Except Err (List String) := do
   if isI then
     let s1 ← need (matchNum el (lit "xmin") true)
-    let e1 ← need (matchNum el (lit "xmax") false)
+    let e1 ← need (matchNum el (lit "xmax") true)
     let lb ← need (matchText el (lit "text") true)
     pure [toStr s1, toStr e1, toStr (replace (strip lb) (lit "\"\"") (lit "\""))]
   else
@@ -264,7 +268,7 @@ def readTierLong (tt : Txt) : Except Err RawTier := do
   let name ← need (matchText hdr (lit "name") false)
   let name := replace name (lit "\"\"") (lit "\"")
   let st ← need (matchNum hdr (lit "xmin") true)
-  let en ← need (matchNum hdr (lit "xmax") false)
+  let en ← need (matchNum hdr (lit "xmax") true)
   let entries ← els.mapM (readEntryLong isI)
   pure ({ cls := if isI then "IntervalTier" else "TextTier", name := toStr name, xmin := toStr st, xmax := toStr en,
           entries := entries } : RawTier)
